@@ -374,7 +374,16 @@ func impPkg(dir string, sel []string, mode string) *SrcPkg {
 		if std, ok := map[string]string{"time": "Time", "sync": "Locker", "text/template": "Template", "html/template": "Template"}[key]; ok {
 			tn = std
 		}
-		sp.Files = append(sp.Files, SrcFile{Name: fmt.Sprintf("f%d.go", i), Aliases: al,
+		var extra []Imp
+		switch mode {
+		case "dot-first": // the first package is dot-imported by the source file
+			if i == 0 && strings.HasPrefix(key, "~/") {
+				al[key] = "."
+			}
+		case "blank-extra": // every file also blank-imports a package the interface does not use
+			extra = []Imp{{Key: "~/q/one", Alias: "_"}}
+		}
+		sp.Files = append(sp.Files, SrcFile{Name: fmt.Sprintf("f%d.go", i), Aliases: al, Extra: extra,
 			Decls: fmt.Sprintf("type X%d = @{%s}.%s\n", i, key, tn)})
 		methods = append(methods, fmt.Sprintf("%c(@{%s}.%s)", 'A'+i, key, tn))
 		tags = append(tags, "imp:"+key)
@@ -385,8 +394,8 @@ func impPkg(dir string, sel []string, mode string) *SrcPkg {
 		sp.Files[i].Decls += fmt.Sprintf("type E%d interface{ %s }\n", i, methods[i])
 		embeds = append(embeds, fmt.Sprintf("E%d", i))
 	}
-	sp.Files = append(sp.Files, SrcFile{Name: "iface.go", Decls: "type I interface{ " + strings.Join(embeds, "; ") + " }\n"})
-	sp.Ifaces = []IfaceCase{{Name: "I", Src: "type I interface{ " + strings.Join(methods, "; ") + " }  // one file per import, mode " + mode, Tags: tags, Scope: "S-imp"}}
+	sp.Files = append(sp.Files, SrcFile{Name: "iface.go", Decls: "type Itf interface{ " + strings.Join(embeds, "; ") + " }\n"})
+	sp.Ifaces = []IfaceCase{{Name: "Itf", Src: "type Itf interface{ " + strings.Join(methods, "; ") + " }  // one file per import, mode " + mode, Tags: tags, Scope: "S-imp"}}
 	return sp
 }
 
@@ -410,6 +419,8 @@ func scopeImp(k int, aliasModes bool) []*SrcPkg {
 				}
 				emit("alias-first")
 				emit("alias-dirname")
+				emit("dot-first")
+				emit("blank-extra")
 				if len(sel) > 1 {
 					emit("alias-as-first")
 				}
@@ -598,6 +609,9 @@ func scopeCfg() []*SrcPkg {
 		"type R32 interface{ M(err error) (err2 error) }",
 		"type R33 interface{ M(error, error) (error, error) }",
 		"type R34 interface{ M(String, Int, Error) }",
+		"type R35 interface{ Ünï(ö int, λ string) (é string, ñ error) }",
+		"type R36 interface{ M(a, b, c, d, e, f, g, h int, i, j string, k ...float64) (r1, r2, r3 int, err error) }",
+		"type R37 interface{ M(m map[string]map[@{~/a/foo}.T][]chan<- func(...*@{~/b/foo}.T) (<-chan Loc, error)) }",
 	}
 	for i, d := range decls {
 		p.add(IfaceCase{Name: fmt.Sprintf("R%d", i), Tags: []string{"rep"}, Scope: "S-cfg"}, d)
